@@ -837,6 +837,52 @@ fn utils(t: &[&str]) -> Res {
         _ => return Err(format!("bad utils fn {}", t[1])),
     })
 }
+/// the operations of the Rust subset as the compiler implements them in this build (overflow checks on or off):
+/// `sem <op> <a> [<b>]`; operands go through `black_box` so that nothing is folded at compile time. Compared with
+/// `Sucds/Model/RustSem.lean` + `Model/Prim.lean`, the semantics library of the function-body translator.
+fn sem(t: &[&str]) -> Res {
+    use std::hint::black_box as bb;
+    let a: usize = bb(num(t[2])?);
+    let b: usize = if t.len() > 3 { bb(num(t[3])?) } else { 0 };
+    let ia = a as isize; let ib = b as isize;
+    Ok(match t[1] {
+        "add" => (a + b).to_string(),
+        "sub" => (a - b).to_string(),
+        "mul" => (a * b).to_string(),
+        "shl" => (a << b).to_string(),
+        "shr" => (a >> b).to_string(),
+        "div" => (a / b).to_string(),
+        "rem" => (a % b).to_string(),
+        "wrapping_add" => a.wrapping_add(b).to_string(),
+        "wrapping_sub" => a.wrapping_sub(b).to_string(),
+        "wrapping_mul" => a.wrapping_mul(b).to_string(),
+        "wrapping_shl" => a.wrapping_shl(b as u32).to_string(),
+        "wrapping_shr" => a.wrapping_shr(b as u32).to_string(),
+        "saturating_add" => a.saturating_add(b).to_string(),
+        "saturating_sub" => a.saturating_sub(b).to_string(),
+        "not" => (!a).to_string(),
+        "and" => (a & b).to_string(),
+        "or" => (a | b).to_string(),
+        "xor" => (a ^ b).to_string(),
+        "count_ones" => a.count_ones().to_string(),
+        "trailing_zeros" => a.trailing_zeros().to_string(),
+        "leading_zeros" => a.leading_zeros().to_string(),
+        "as_u8" => (a as u8 as usize).to_string(),
+        "as_u16" => (a as u16 as usize).to_string(),
+        "as_u32" => (a as u32 as usize).to_string(),
+        "as_isize" => ia.to_string(),
+        "isize_as_usize" => (bb(ia) as usize).to_string(),
+        "iadd" => (ia + ib).to_string(),
+        "isub" => (ia - ib).to_string(),
+        "ineg" => (-ia).to_string(),
+        "min" => a.min(b).to_string(),
+        "max" => a.max(b).to_string(),
+        "b2u" => ((a != 0) as usize).to_string(),
+        "shl_const9" => (a << 9).to_string(),
+        "shl_const8" => (a << 8).to_string(),
+        _ => return Err(format!("bad sem op {}", t[1])),
+    })
+}
 /// primitive and wrapper serialization: `prim <type> <value>` → bytes and round trip
 fn prim(t: &[&str]) -> Res {
     fn go<S: Serializable + PartialEq>(x: S) -> String {
@@ -922,6 +968,7 @@ fn main() {
             "rt2" => st.rt2(&t),
             "bw" => broadword(&t),
             "ut" => utils(&t),
+            "sem" => sem(&t),
             "prim" => prim(&t),
             "drop" => {
                 st.objs.remove(&num(t[1])?);
